@@ -303,7 +303,10 @@ def bootstrap_no_skip(ck, prog):
         return
     be = sorted(G.back_edges(b))
     # loop headers that dominate the draw, outermost first
-    headers = sorted({h for (u, h) in be if b.dominates(h, draws[0])}, key=lambda h: len(b.dom[h]))
+    from sa.isolation import natural_loops as _nl
+    _loops = _nl(b)
+    # loops that CONTAIN the site (the header of a loop that merely precedes it dominates it as well)
+    headers = sorted({h for h, nodes in _loops.items() if draws[0] in nodes}, key=lambda h: len(b.dom[h]))
     if len(headers) < 2:
         ck.violation(rule, inst, b.path, b.where(draws[0]), expected="a per-class loop around the draw loop", found=f"{len(headers)} enclosing loops")
         return
